@@ -393,7 +393,10 @@ example : ∃ w, OReach w ∧ w.calls.map (fun c => (c.pc, c.ret)) =
   served again"), but the general model shows what the code does with them; the running check of `Bind` and the
   later `running = true` of the serving call are two critical sections. -/
 
-/-- a `Bind` that slips between DoListen's read of the listener and its `running = true` is NOT refused: DoListen
+/-- (the code BEFORE fix a1069ea, where these were separate critical sections — the model still has this finer
+    granularity, see the header of Lifecycle.lean; `vh lifeprobe` checks on every run that the real code no longer
+    shows it)
+    a `Bind` that slips between DoListen's read of the listener and its `running = true` is NOT refused: DoListen
     then serves the old listener while the field holds the new one; Shutdown closes only the new one, and the
     serving call stays blocked in Accept on a listener nobody can close any more. -/
 example : (run init [.spawn .bind false (some 0), .call 0, .call 0, .call 0, .call 0,   -- Bind: listener 0
